@@ -82,7 +82,7 @@ def draw_cfg(rng, engine):
 class GenSource(object):
     mode = 'gen'
 
-    def __init__(self, seed, engine, steps_table=None):
+    def __init__(self, seed, engine, steps_table=None, funcs=None):
         self.seed = seed
         self.rng = random.Random(seed)
         self.cfg = draw_cfg(self.rng, engine)
@@ -91,6 +91,15 @@ class GenSource(object):
         self.made = 0
         self.queues = {}
         self.want_name = None
+        # affinity: which catalogue entries enter which pymeeus functions (measured by ./check calibrate);
+        # used to make overlapping calls share code, which is where per-function scratch state would bite
+        self.funcs = funcs or {}
+        idx = {}
+        for n in sorted(self.funcs):
+            if n in ENTRIES:
+                for f in self.funcs[n]:
+                    idx.setdefault(f, []).append(n)
+        self.fidx = dict((f, v) for f, v in idx.items() if 2 <= len(v) <= 60)
         w = []
         for n in NAMES:
             e = ENTRIES[n]
@@ -316,6 +325,16 @@ class GenSource(object):
         self.made += 1
         return op
 
+    def _affine(self, name):
+        """A callable to overlap with `name`: itself, or one that enters a (rarely used) function `name` enters too."""
+        rng = self.rng
+        fs = [f for f in self.funcs.get(name, ()) if f in self.fidx]
+        if not fs or rng.random() < 0.35:
+            return name
+        w = [1.0 / (len(self.fidx[f]) ** 2) for f in fs]
+        f = rng.choices(fs, w)[0]
+        return rng.choice(self.fidx[f])
+
     # ---- sequential engines
     def next_top(self, sim):
         if self.made >= self.cfg['nops']:
@@ -329,7 +348,7 @@ class GenSource(object):
             return None
         if self.rng.random() < self.cfg['p_same'] and not parent['name'].startswith('@'):
             # the most telling interleaving for per-function scratch state: the same callable overlapping itself
-            self.want_name = parent['name'].split('#')[0] if self.rng.random() < 0.3 else parent['name']
+            self.want_name = self._affine(parent['name'])
         return self.make_op(sim, self.rng.choice(others), 1)
 
     # ---- thread engine
@@ -343,7 +362,7 @@ class GenSource(object):
             inflight = [c.op['name'] for j, c in enumerate(sim.tcur) if j != task and c is not None
                         and not c.op['name'].startswith('@')]
             if inflight:
-                self.want_name = self.rng.choice(inflight)
+                self.want_name = self._affine(self.rng.choice(inflight))
         return self.make_op(sim, task, 0)
 
     def t_pick(self, sim, runnable, point):
